@@ -118,6 +118,11 @@ def oracle_multi(svc, script, out):
         fails.append((f"{fam}:lock-held-at-end", "AE lock still held after the generator finished"))
     if out["raised"] is None and not out["overrun"] and not out["ckpt"]:
         fails.append((f"{fam}:checkpoint-not-restored", "reactor checkpoint not set after the generator finished"))
+    if out["raised"] is None and not out["overrun"] and out["yields"] and out["yields"][-1][3]:
+        # a caller that stops at the final status (break / a single next()) never resumes the generator: the reactor
+        # must already be running again when the final response is handed over
+        fails.append((f"{fam}:reactor-paused-at-final-yield",
+                      f"the reactor checkpoint is still cleared while the generator is suspended on its last (final) response {out['yields'][-1][:2]}"))
     if not out["cancels_ok"]:
         fails.append((f"{fam}:cancel-while-suspended", "send_c_cancel between two next() calls did not send exactly one C-CANCEL"))
     if out["raised"] is None and not out["overrun"]:
